@@ -2272,3 +2272,11 @@ variant('b-rx-trigger-does-not-clear', ['C06', 'C20'], FRP,
 variant('t-rx-trigger-clears-before-requesting', ['C06', 'C20'], FRP,
         "            subscriber.subscription.request(limit_rate)\n            subscriber.get_next_n.clear()\n",
         "            subscriber.get_next_n.clear()\n            subscriber.subscription.request(limit_rate)\n", kind='twin')
+
+# C20.e which case of observable_to_publisher gives which
+variant('b-observable-to-publisher-none-test-inverted', ['C20'], 'rsocket/reactivex/back_pressure_publisher.py',
+        "    if observable is None:\n        return observable", "    if observable is not None:\n        return None",
+        ('C20.e', 'observable_to_publisher'))
+variant('b-observable-to-publisher-factory-test-inverted', ['C20'], 'rsocket/rx_support/back_pressure_publisher.py',
+        "    if isinstance(observable, ObservableBackpressureFactory):", "    if not isinstance(observable, ObservableBackpressureFactory):",
+        ('C20.e', 'observable_to_publisher'))
